@@ -121,9 +121,9 @@ C04Chains == { Open, <<V("n", 2)>>, <<V("n", 0)>>, <<V("n", 1), V("none", 0)>>, 
 C04LeavesQ == { Leaf1("r0", "next", {0}, c) : c \in C04Chains \ {<<Seg("answer", "n", 2)>>} }
               \cup { Leaf1("r0", "next", Arg, Open) }
               \cup { Leaf1("r1", "next", {0}, c) : c \in {Open, <<V("n", 2)>>, <<V("n", 1), V("none", 0)>>} }
-              \cup { Leaf1("r2", "each", Arg, Open) }
+              \cup { Leaf1("r2", "each", Arg, Open), Leaf1("r2", "each", Arg, <<V("n", 1)>>) }   \* unordered bystanders, one exactly quantified
 C04LeavesT == { Leaf1(m, "next", p, c) : m \in {"r0", "r1", "d0"}, p \in {{0}, {1}, Arg}, c \in C04Chains \cup {<<V("n", 3)>>, <<V("n", 1), V("n", 2)>>} }
-              \cup { Leaf1("r2", f, Arg, Open) : f \in {"each", "some"} }
+              \cup { Leaf1("r2", f, Arg, Open) : f \in {"each", "some"} } \cup { Leaf1("r2", "each", Arg, <<V("n", 2)>>) }
 
 \* ---------------- C07: unanswered calls ----------------
 C07Leaves == { Leaf1(m, f, p, c) : m \in {"r0", "r1", "d0", "d1"}, f \in {"each", "next"}, p \in {{0}, {}},
@@ -152,6 +152,15 @@ C15Leaves == { Leaf1("d0", f, Arg, <<Seg("dflt", q[1], q[2])>>) : f \in {"each",
 C16Leaves == { Leaf1(m, f, p, <<Seg("unmock", q[1], q[2])>>) : m \in {"r1", "d1"}, f \in {"each", "next"}, p \in {{0}, Arg}, q \in {<<"none", 0>>, <<"n", 1>>} }
              \cup { Leaf1("r0", f, Arg, c) : f \in {"each", "next"}, c \in {Open, <<V("n", 2)>>} }
              \cup { Leaf1("r0", "each", Arg, <<Seg("unmock", "none", 0)>>), Leaf1("r1", "each", {1}, <<Seg("answer", "none", 0)>>) }
+C15LeavesQ == { Leaf1("d0", "each", Arg, <<Seg("dflt", "none", 0)>>), Leaf1("d0", "next", Arg, <<Seg("dflt", "n", 2)>>) }
+             \cup { Leaf1("r0", f, p, c) : f \in {"each", "next"}, p \in {{0}, Arg}, c \in {Open, <<V("n", 2)>>} }
+             \cup { Leaf1("r1", "next", Arg, Open) }
+C16LeavesQ == { Leaf1(m, f, {0}, <<Seg("unmock", "none", 0)>>) : m \in {"r1", "d1"}, f \in {"each", "next"} }
+             \cup { Leaf1("r1", "each", Arg, <<Seg("unmock", "n", 1)>>), Leaf1("d1", "next", Arg, <<Seg("unmock", "n", 2)>>) }
+             \cup { Leaf1("r0", "each", Arg, Open), Leaf1("r0", "next", Arg, <<V("n", 2)>>) }
+             \cup { Leaf1("r0", "each", Arg, <<Seg("unmock", "none", 0)>>), Leaf1("r1", "each", {1}, <<Seg("answer", "none", 0)>>) }
+cScriptsQ == Scripts({"r0"}, 2) \cup Scripts({"r1"}, 1)
+cScriptsR1 == Scripts({"r0", "r1"}, 1)
 cScripts1 == Scripts(Method \ {"t0", "b0"}, 1)
 cScripts2 == Scripts({"r0", "r1"}, 2)
 cScriptsReq2 == Scripts({"r0", "r1"}, 2)
